@@ -1286,6 +1286,10 @@ func TestVerifC03(t *testing.T) {
 	rnd := vNewRand(vSeed())
 	base.SetUpTestLogging(t, base.LevelError, base.KeyNone)
 
+	if os.Getenv("VERIF_C03_ONLY") == "session" { // debugging aid: the session streams alone
+		c03sStreams(t, rec, rnd)
+		return
+	}
 	envs := map[bool]*c03Env{}
 	used := map[bool]int{}
 	env := func(def bool) *c03Env {
